@@ -26,7 +26,8 @@ ASSUMPTIONS = ['completing a span early but inside the opening invocation is all
 
 SHAPES = ['calls', 'recursion', 'mutual', 'exc_caught_in_caller', 'exc_caught_inside', 'exc_propagates', 'try_finally', 'gen_full', 'gen_partial',
           'gen_closed', 'klass', 'closure', 'with_block', 'loop']
-KINDS = ['span_line', 'span_method', 'capture_method', 'capture_line', 'span_pair', 'span_line_pair', 'span_and_capture']
+KINDS = ['span_line', 'span_method', 'capture_method', 'capture_line', 'span_pair', 'span_line_pair', 'span_and_capture',
+         'span_method_and_line', 'span_two_lines', 'span_method_and_callee']
 
 
 def bounds(tier):
@@ -51,6 +52,20 @@ def cases(tier, seed):
                 out.append({'k': 'seq', 'prog': name, 'kind': 'span_and_capture', 'at': fn, 'fc': fc})
             for ln in lines[::2]:
                 out.append({'k': 'seq', 'prog': name, 'kind': 'span_line_pair', 'at': ln, 'fc': fc})
+            # deferred actions opened by *different* events and pending together: a method span plus a line span on every line of
+            # that function, line spans on two lines of one function, method spans on two functions (caller/callee, recursion)
+            for co in progs.code_objects(lo.code):
+                if co is lo.code or co.co_name.startswith('<'):
+                    continue
+                own = sorted({ln for _, _, ln in co.co_lines() if ln is not None})
+                for ln in own:
+                    out.append({'k': 'seq', 'prog': name, 'kind': 'span_method_and_line', 'at': [co.co_name, ln], 'fc': fc})
+                for l1, l2 in zip(own, own[1:]):
+                    out.append({'k': 'seq', 'prog': name, 'kind': 'span_two_lines', 'at': [l1, l2], 'fc': fc})
+            for f1 in fns:
+                for f2 in fns:
+                    if f1 < f2:
+                        out.append({'k': 'seq', 'prog': name, 'kind': 'span_method_and_callee', 'at': [f1, f2], 'fc': fc})
     for name in ('gen_partial', 'exc_propagates', 'calls', 'recursion'):
         lo = progs.load(name)
         for fn in progs.function_names(lo.code):
@@ -99,6 +114,12 @@ def triggers_for(prog, kind, at, fc):
         return [make_trigger(prog, 'span_line', at, fc, 'tp-a'), make_trigger(prog, 'span_line', at, fc, 'tp-b')]
     if kind == 'span_and_capture':
         return [make_trigger(prog, 'span_method', at, fc, 'tp-a'), make_trigger(prog, 'capture_method', at, fc, 'tp-b'), make_trigger(prog, 'span_method', at, fc, 'tp-c')]
+    if kind == 'span_method_and_line':
+        return [make_trigger(prog, 'span_method', at[0], fc, 'tp-a'), make_trigger(prog, 'span_line', at[1], fc, 'tp-b')]
+    if kind == 'span_two_lines':
+        return [make_trigger(prog, 'span_line', at[0], fc, 'tp-a'), make_trigger(prog, 'span_line', at[1], fc, 'tp-b')]
+    if kind == 'span_method_and_callee':
+        return [make_trigger(prog, 'span_method', at[0], fc, 'tp-a'), make_trigger(prog, 'span_method', at[1], fc, 'tp-b')]
     return [make_trigger(prog, kind, at, fc)]
 
 
